@@ -1,8 +1,8 @@
 (* C01 - where the implementation's rounding points are not the documented ones (witnesses), and
    the distance of the presented totals from the unrounded exact value under 'precise'. *)
-From Coq Require Import ZArith QArith Qabs Lia Lqa List Bool ZifyBool ZifyNat Setoid Morphisms.
+From Coq Require Import ZArith QArith Qabs Qround Lia Lqa List Bool ZifyBool ZifyNat Setoid Morphisms.
 From Verif Require Import Base.Wire Base.Rha Base.RhaProofs Num.Amount Num.AmountProofs Calc.Doc Calc.Calc
-  Calc.TaxProofs Calc.ExpLemmas Calc.BoundProofs Calc.Ideal Calc.IdealProofs.
+  Calc.TaxProofs Calc.ExpLemmas Calc.BoundProofs Calc.Ideal Calc.IdealProofs Calc.IdealClass.
 Import ListNotations.
 Open Scope Q_scope.
 
@@ -128,7 +128,6 @@ Proof.
   intros W H. eapply cl_weaken; [apply cl_rnd, H|]. pose proof (half_unit_le_eps c w W). lra.
 Qed.
 
-Definition nQ (n : nat) : Q := inject_Z (Z.of_nat n).
 Lemma nQ_S n : nQ (S n) == nQ n + 1.
 Proof. unfold nQ. rewrite Nat2Z.inj_succ, <- Z.add_1_r, inject_Z_plus. reflexivity. Qed.
 Lemma nQ_nonneg n : 0 <= nQ n.
@@ -148,23 +147,6 @@ Qed.
 (* ------------------------------------------------------------------------------------------ *)
 (* simple documents: the features whose rounding points are the documented ones                *)
 (* ------------------------------------------------------------------------------------------ *)
-Definition pct_ok (p : option amount) : Prop :=
-  match p with Some q => Qabs (toQ q) <= 1 | None => True end.
-(* a fixed amount, a rate x quantity, or a percentage of at most 100% either way *)
-Definition simple_row (d : ldc) : Prop := pct_ok (ld_pct d).
-(* priced in the document's currency, or by an alternative price in it *)
-Definition unconverted (cur : Z) (it : item) : Prop :=
-  match it_cur it with
-  | None => True
-  | Some (ic, _) => ic = cur \/ find_alt cur (it_alts it) <> None
-  end.
-Definition simple_line (cur : Z) (l : line) : Prop :=
-  ln_breakdown l = [] /\ unconverted cur (ln_item l) /\
-  Forall simple_row (ln_discounts l) /\ Forall simple_row (ln_charges l).
-
-(* error budget of a line total, in units of eps: one for the product, three per row *)
-Definition e_line (l : line) : Q := 1 + 3 * nQ (length (ln_discounts l)) + 3 * nQ (length (ln_charges l)).
-
 Lemma price_unconverted R c cur rates it : unconverted cur it ->
   exists P, s_item_price R c cur rates it = Some P /\ s_item_price noround c cur rates it = Some P.
 Proof.
@@ -252,7 +234,6 @@ Inductive lines_close (c : nat) : list line -> list iline -> list iline -> Prop 
     cl (e_line l * eps c) (fq (il_total il)) (fq (il_total il')) -> (c + 2 <= fp (il_total il))%nat ->
     lines_close c ls ils ils' -> lines_close c (l :: ls) (il :: ils) (il' :: ils').
 
-Definition e_sum (ls : list line) : Q := sumQl (map e_line ls).
 
 Lemma s_lines_close c cur rates ls : Forall (simple_line cur) ls ->
   exists ils ils', s_lines rnd false c cur rates ls = Some ils /\ s_lines noround false c cur rates ls = Some ils' /\
@@ -290,7 +271,6 @@ Proof.
   pose proof (e_line_nonneg l). fold (sumQl (map e_line r)). lra.
 Qed.
 
-Definition simple_drow (d : ddc) : Prop := pct_ok (dd_pct d).
 
 Lemma s_ddc_close c sum sum' B d : simple_drow d -> 0 <= B ->
   cl (B * eps c) (fq sum) (fq sum') -> (c + 2 <= fp sum)%nat ->
@@ -323,10 +303,6 @@ Proof. unfold s_opt_sum. destruct xs; [reflexivity|]. reflexivity. Qed.
 (* ------------------------------------------------------------------------------------------ *)
 (* tax rows, groups and categories                                                             *)
 (* ------------------------------------------------------------------------------------------ *)
-Definition rate_ok (p : option amount) : Prop :=
-  match p with Some q => 0 <= toQ q /\ toQ q <= 1 | None => True end.
-(* tax percentages and surcharges between 0% and 100% *)
-Definition combo_ok (cb : combo) : Prop := rate_ok (cb_pct cb) /\ rate_ok (cb_sur cb).
 
 Inductive rows_close (c : nat) : list Q -> list irow -> list irow -> Prop :=
 | rows_close_nil : rows_close c [] [] []
@@ -492,14 +468,6 @@ Proof.
       * cbn [ngroups fold_right]. fold (ngroups r). fold (ngroups (s_add_to_cats rnd false c tot cb r)). lia.
 Qed.
 
-(* rows weighted by the number of tax combos they carry *)
-Fixpoint row_weight (bs : list Q) (ts : list (list combo)) : Q :=
-  match bs, ts with
-  | b :: bs', t :: ts' => nQ (length t) * b + row_weight bs' ts'
-  | _, _ => 0
-  end.
-Definition ncombos (ts : list (list combo)) : nat := fold_right (fun t n => (length t + n)%nat) 0%nat ts.
-
 Lemma cshape_refl_nil c : Forall2 (cshape c) [] [].
 Proof. constructor. Qed.
 
@@ -625,36 +593,6 @@ Qed.
 (* ------------------------------------------------------------------------------------------ *)
 (* the document: classes, budgets, the bound                                                   *)
 (* ------------------------------------------------------------------------------------------ *)
-Definition simple_doc (d : doc) : Prop :=
-  d_currency_rule d = false /\ d_lines d <> [] /\
-  Forall (simple_line (d_cur d)) (d_lines d) /\
-  Forall simple_drow (d_discounts d) /\ Forall simple_drow (d_charges d) /\
-  Forall (fun l => Forall combo_ok (ln_taxes l)) (d_lines d) /\
-  Forall (fun x => Forall combo_ok (dd_taxes x)) (d_discounts d) /\
-  Forall (fun x => Forall combo_ok (dd_taxes x)) (d_charges d) /\
-  Forall (fun r => pct_ok (pr_pct r)) (d_advances d).
-
-(* budgets, in units of eps = half a unit of the (c+2)-th decimal = 1/200 minor unit *)
-Definition b_drow (d : doc) : Q := e_sum (d_lines d) + 1.
-Definition b_total1 (d : doc) : Q :=
-  e_sum (d_lines d) + (nQ (length (d_discounts d)) * b_drow d + 1) + (nQ (length (d_charges d)) * b_drow d + 1).
-Definition row_bounds (d : doc) : list Q :=
-  map e_line (d_lines d) ++ map (fun _ => b_drow d) (d_discounts d) ++ map (fun _ => b_drow d) (d_charges d).
-Definition row_taxes (d : doc) : list (list combo) :=
-  map ln_taxes (d_lines d) ++ map dd_taxes (d_discounts d) ++ map dd_taxes (d_charges d).
-Definition b_cats (d : doc) : Q :=
-  row_weight (map (fun b => b + 1) (row_bounds d)) (row_taxes d) + nQ (ncombos (row_taxes d)).
-Definition b_tax (d : doc) : Q := 2 * b_cats d.
-(* the tax taken out of tax-inclusive prices; nothing when prices do not include a tax *)
-Definition b_inc (d : doc) : Q := match d_pit d with [] => 0 | _ :: _ => b_cats d + 1 end.
-Definition b_total (d : doc) : Q := b_total1 d + b_inc d.
-Definition b_twt (d : doc) : Q := b_total d + (b_tax d + 1).
-Definition b_payable (d : doc) : Q := b_twt d + 1.
-Definition b_discount (d : doc) : Q := nQ (length (d_discounts d)) * b_drow d.
-Definition b_charge (d : doc) : Q := nQ (length (d_charges d)) * b_drow d.
-Definition b_advances (d : doc) : Q := nQ (length (d_advances d)) * (b_twt d + 1).
-Definition b_due (d : doc) : Q := b_payable d + (b_advances d + 1).
-
 (* optional totals: both present and close, or both absent *)
 Definition ocl (B : Q) (o o' : option Q) : Prop :=
   match o, o' with Some a, Some b => cl B a b | None, None => True | _, _ => False end.
@@ -963,4 +901,76 @@ Proof.
   split; [eapply obound_lt; [exact K7|apply G; unfold tw; lra]|].
   split; [eapply obound_lt; [exact K8|apply G; unfold tw; lra]|].
   eapply obound_lt; [exact K9|apply G; unfold tw; lra].
+Qed.
+
+(* ------------------------------------------------------------------------------------------ *)
+(* the decidable version of the class                                                          *)
+(* ------------------------------------------------------------------------------------------ *)
+Lemma pct_okb_sound p : pct_okb p = true -> pct_ok p.
+Proof. unfold pct_okb, pct_ok. destruct p; [apply Qle_bool_imp_le|auto]. Qed.
+
+Lemma rate_okb_sound p : rate_okb p = true -> rate_ok p.
+Proof.
+  unfold rate_okb, rate_ok. destruct p; [|auto]. intros H. apply andb_prop in H. destruct H as [A B].
+  split; apply Qle_bool_imp_le; assumption.
+Qed.
+
+Lemma combo_okb_sound cb : combo_okb cb = true -> combo_ok cb.
+Proof. unfold combo_okb, combo_ok. intros H. apply andb_prop in H. destruct H. split; apply rate_okb_sound; assumption. Qed.
+
+Lemma forallb_Forall {A} (f : A -> bool) (P : A -> Prop) l :
+  (forall x, f x = true -> P x) -> forallb f l = true -> Forall P l.
+Proof.
+  intros H F. apply Forall_forall. intros x I. apply H. rewrite forallb_forall in F. apply F, I.
+Qed.
+
+Lemma unconvertedb_sound cur it : unconvertedb cur it = true -> unconverted cur it.
+Proof.
+  unfold unconvertedb, unconverted. destruct (it_cur it) as [[ic isub]|]; [|auto].
+  intros H. apply orb_prop in H. destruct H as [H|H]; [left; apply Z.eqb_eq, H|right].
+  destruct (find_alt cur (it_alts it)); [discriminate|discriminate].
+Qed.
+
+Lemma simple_lineb_sound cur l : simple_lineb cur l = true -> simple_line cur l.
+Proof.
+  unfold simple_lineb, simple_line. intros H.
+  apply andb_prop in H. destruct H as [H H4]. apply andb_prop in H. destruct H as [H H3].
+  apply andb_prop in H. destruct H as [H1 H2].
+  split; [destruct (ln_breakdown l); [reflexivity|discriminate]|].
+  split; [apply unconvertedb_sound, H2|].
+  split; eapply forallb_Forall; try eassumption; intros x; apply pct_okb_sound.
+Qed.
+
+Lemma simple_docb_sound d : simple_docb d = true -> simple_doc d.
+Proof.
+  unfold simple_docb, simple_doc. intros H.
+  repeat (let K := fresh "K" in apply andb_prop in H; destruct H as [H K]).
+  split; [destruct (d_currency_rule d); [discriminate|reflexivity]|].
+  split; [intros E; rewrite E in *; discriminate|].
+  split; [eapply forallb_Forall; [|exact K5]; apply simple_lineb_sound|].
+  split; [eapply forallb_Forall; [|exact K4]; intros x; apply pct_okb_sound|].
+  split; [eapply forallb_Forall; [|exact K3]; intros x; apply pct_okb_sound|].
+  split; [eapply forallb_Forall; [|exact K2]; intros x K'; eapply forallb_Forall; [|exact K']; apply combo_okb_sound|].
+  split; [eapply forallb_Forall; [|exact K1]; intros x K'; eapply forallb_Forall; [|exact K']; apply combo_okb_sound|].
+  split; [eapply forallb_Forall; [|exact K0]; intros x K'; eapply forallb_Forall; [|exact K']; apply combo_okb_sound|].
+  eapply forallb_Forall; [|exact K]. intros x. apply pct_okb_sound.
+Qed.
+
+(* the bound, with decidable premises: what the check evaluates on every generated document *)
+Lemma precise_error_bound_decidable d t : simple_docb d = true -> (budget d < 100)%Z -> calculate d = Totals t ->
+  exists y, exact d = Some y /\
+    let u := unitQ (d_c d) in
+    Qabs (toQ (t_sum t) - i_sum y) < u /\
+    Qabs (toQ (t_total t) - i_total y) < u /\
+    Qabs (toQ (t_tax t) - i_tax y) < u /\
+    Qabs (toQ (t_twt t) - i_twt y) < u /\
+    Qabs (toQ (t_payable t) - i_payable y) < u /\
+    obound (fun e => e < u) (t_discount t) (i_discount y) /\
+    obound (fun e => e < u) (t_charge t) (i_charge y) /\
+    obound (fun e => e < u) (t_advances t) (i_advances y) /\
+    obound (fun e => e < u) (t_due t) (i_due y).
+Proof.
+  intros S B H. apply precise_error_bound; [apply simple_docb_sound, S| |exact H].
+  unfold budget in B. eapply Qle_lt_trans; [apply Qle_ceiling|].
+  change 100 with (inject_Z 100). rewrite <- Zlt_Qlt. exact B.
 Qed.
